@@ -23,9 +23,17 @@ pub struct Case {
     /// all rule and terminal names lower-cased (the style of examples/clang)
     #[serde(default)]
     pub lower: bool,
+    /// the grammar gets the documented Layout rule (whitespace, line and nested block comments)
+    #[serde(default)]
+    pub layout: bool,
 }
 
 pub fn spec_of(c: &Case) -> crate::spec::GrammarSpec {
+    if c.layout {
+        let mut s = gen::build_ast(&c.tape);
+        s.layout = Some(crate::spec::LayoutKind::WsLineBlock);
+        return s;
+    }
     if c.lower {
         return gen::build_ast(&c.tape).lowercased();
     }
@@ -214,7 +222,7 @@ pub fn run(tier: Tier, seed: u64, replay: Option<&Path>) -> RunResult {
                 let tape = gen::g_ast().new_tree(&mut runner).unwrap().current();
                 for k in 0..3 {
                     let cfg = cov[(g * 3 + k + b) % cov.len()];
-                    v.push(Case { tape: tape.clone(), cfg, rec: false, kw: false, lower: g % 5 == 4 && k == 0 });
+                    v.push(Case { tape: tape.clone(), cfg, rec: false, kw: false, lower: g % 5 == 4 && k == 0, layout: g % 5 != 4 && (g + k) % 3 == 1 });
                 }
             }
             // recursive type shapes (vector / optional / sugar edges that point back)
@@ -223,7 +231,7 @@ pub fn run(tier: Tier, seed: u64, replay: Option<&Path>) -> RunResult {
                 for k in 0..2 {
                     let mut cfg = cov[(g * 2 + k + b) % cov.len()];
                     cfg.builder = 0; // the types live in the actions file of the default builder
-                    v.push(Case { tape: tape.clone(), cfg, rec: true, kw: false, lower: false });
+                    v.push(Case { tape: tape.clone(), cfg, rec: true, kw: false, lower: false, layout: false });
                 }
             }
             // grammars without any content terminal (keywords only), default builder
@@ -233,7 +241,7 @@ pub fn run(tier: Tier, seed: u64, replay: Option<&Path>) -> RunResult {
                     let mut cfg = cov[(g * 2 + k + b + 5) % cov.len()];
                     cfg.builder = 0;
                     cfg.loc_info = k == 0;
-                    v.push(Case { tape: tape.clone(), cfg, rec: false, kw: true, lower: false });
+                    v.push(Case { tape: tape.clone(), cfg, rec: false, kw: true, lower: false, layout: false });
                 }
             }
             cases.push(v);
